@@ -35,20 +35,23 @@ ASSUMPTIONS = [
     "violation kinds: dtype_bare (array of another dtype), dtype_chunk_data (Chunk declaring the right dtype but "
     "carrying data of another), dtype_chunk_both (Chunk declaring and carrying another dtype), row_early / row_late "
     "(a row starting before / ending after the carrying chunk, within the last 500 rows), wrong_label (Chunk labelled "
-    "with another data type), gap / overlap (chunk-producing plugins: start shifted), non_dict / missing_output "
+    "with another data type; for multi-output plugins also label_sibling_chunk: an output wrapped in a Chunk that "
+    "carries the right data but the label of the sibling output, and dtype_sibling_chunk: a Chunk labelled right but "
+    "declaring and carrying the sibling's dtype), gap / overlap (chunk-producing plugins: start shifted), non_dict / missing_output "
     "(multi-output)",
     "threaded runs under the controlled scheduler; numba helpers un-jitted",
 ]
 _COUNTER = itertools.count()
 
 KINDS = ["dtype_bare", "dtype_chunk_data", "dtype_chunk_both", "row_early", "row_late", "wrong_label", "gap",
-         "overlap", "non_dict", "missing_output"]
+         "overlap", "non_dict", "missing_output", "dtype_sibling_chunk", "label_sibling_chunk"]
 PLUGIN_KIND = {"source": "source", "rowwise": "ordinary", "filter": "ordinary", "merge": "ordinary",
                "multi": "multi", "loop": "loop", "overlap": "overlap", "downchunk": "downchunk", "exhaust": "ordinary"}
 APPLICABLE = {
     "source": ["dtype_chunk_data", "dtype_chunk_both", "row_early", "row_late", "wrong_label", "gap", "overlap"],
     "ordinary": ["dtype_bare", "dtype_chunk_data", "dtype_chunk_both", "row_early", "row_late", "wrong_label"],
-    "multi": ["dtype_bare", "dtype_sibling_chunk", "row_early", "row_late", "non_dict", "missing_output"],
+    "multi": ["dtype_bare", "dtype_sibling_chunk", "label_sibling_chunk", "row_early", "row_late", "non_dict",
+              "missing_output"],
     "loop": ["dtype_bare", "dtype_chunk_data", "dtype_chunk_both", "row_late", "wrong_label"],
     "overlap": ["dtype_bare", "dtype_chunk_both", "row_late", "wrong_label"],
     "downchunk": ["dtype_chunk_data", "dtype_chunk_both", "row_late", "wrong_label", "gap"],
@@ -105,6 +108,12 @@ def make_mutation(kind):
                 # sibling output (outputs mixed up)
                 sib = res[sorted(res)[0]]
                 r[key] = strax.Chunk(start=start, end=end, data=sib.copy(), dtype=sib.dtype, data_type=key,
+                                     data_kind=plugin.data_kind_for(key), run_id=plugin._run_id)
+            elif kind == "label_sibling_chunk":
+                # a self-consistent Chunk with the right data and dtype for this output, but labelled with the data type
+                # of the SIBLING output (the copy-and-paste slip self.chunk(..., data_type=<other output>))
+                sib_name = sorted(res)[0]
+                r[key] = strax.Chunk(start=start, end=end, data=a.copy(), dtype=a.dtype, data_type=sib_name,
                                      data_kind=plugin.data_kind_for(key), run_id=plugin._run_id)
             elif kind == "row_early":
                 b = a.copy()
